@@ -65,6 +65,13 @@ ANALYSES = {
     "assess": lambda m: {"result": assess(m, m.reactions[1]) is True},
     "assess(existing-demand)": lambda m: {"result": assess(m, m.reactions.DM_B) is True},
     "minimal_medium": lambda m: (lambda s: {"total": None if s is None else s.sum() if len(s) else 0})(minimal_medium(m, 0.5)),
+    # open_exchanges widens every exchange first: also on the paths where the minimisation then has no solution (None)
+    "minimal_medium(open_exchanges)": lambda m: (lambda s: {"total": None if s is None else s.sum() if len(s) else 0})(
+        minimal_medium(m, 0.5, open_exchanges=True)),
+    "minimal_medium(open_exchanges,unreachable)": lambda m: (lambda s: {"total": None if s is None else s.sum() if len(s) else 0})(
+        minimal_medium(m, 1e6, open_exchanges=7)),
+    "minimal_medium(components,open_exchanges,unreachable)": lambda m: (lambda s: {"n": None if s is None else len(s)})(
+        minimal_medium(m, 1e6, minimize_components=True, open_exchanges=True)),
     # MILP formulations on the stub's MILP contract (DESIGN 10.4)
     "room": lambda m: (lambda s: {"status": s.status, "objective": s.objective_value if s.status == "optimal" else None})(_room(m)),
     "minimal_medium(components)": lambda m: (lambda s: {"n": None if s is None else len(s)})(minimal_medium(m, 0.5, minimize_components=True)),
@@ -79,7 +86,8 @@ USES_FIXED_OBJECTIVE = ("pfba", "fva-pfba_factor", "model.summary", "metabolite.
 QUICK = ["optimize", "optimize(objective_sense,raise_error)", "slim_optimize", "fva", "fva-fraction", "fva-pfba_factor", "find_blocked_reactions", "find_essential_genes",
          "pfba", "linear-moma", "single_reaction_deletion", "single_gene_deletion", "double_gene_deletion",
          "single_gene_deletion(linear moma)", "loopless_solution", "assess", "assess(existing-demand)", "minimal_medium",
-         "model.summary", "production_envelope", "minimal_medium(components)", "gapfill", "gapfill(empty-universal)"]
+         "model.summary", "production_envelope", "minimal_medium(components)", "gapfill", "gapfill(empty-universal)",
+         "minimal_medium(open_exchanges)", "minimal_medium(open_exchanges,unreachable)", "minimal_medium(components,open_exchanges,unreachable)"]
 
 
 def _room(m):
